@@ -131,8 +131,14 @@ impl Acked {
             header.seq_num,
         );
 
+        #[cfg(p2panda_p2panda_verif)]
+        p2panda_core::verif::point("acked.ack.after_read").await;
+
         tx!(self.store, {
             self.store.set_cursor(&cursor).await?;
+
+            #[cfg(p2panda_p2panda_verif)]
+            p2panda_core::verif::point("acked.ack.before_commit").await;
         });
 
         Ok(())
